@@ -1,4 +1,5 @@
 import Zc.Proofs.Sched
+import Zc.Proofs.Sched2
 /-! # C10 — the browser keeps learned services alive: refresh queries, rate limit, liveness
 
 Model: `Zc.Sched` (`lean/Zc/Model/Sched.lean`), the `QueryScheduler` of `_services/browser.py` **after**
@@ -309,5 +310,96 @@ example : ∃ s : S, ∃ q : Q, Post s ∧ Uniq s.heap ∧ q ∈ s.heap ∧ q.ca
 
 example : Active [(5, Op.ptr "a" "t" 1125 5), (7, Op.fire false)] ∧ Untouched "b" [(5, Op.ptr "a" "t" 1125 5), (7, Op.cancel "c")] := by
   constructor <;> intro e he <;> simp at he <;> rcases he with rfl | rfl <;> rfl
+
+/-! ## The two containers as the code has them (`Zc.Sched2`): dict/heap invariant, and C10 restated on that model
+
+`Zc.Sched2` keeps `_query_heap` (objects with identity and `cancelled` flag, cancelled ones left in place) and
+`_next_scheduled_for_alias` (alias ↦ object) as separate state and transcribes every statement that touches them, the
+`KeyError` of `del dict[alias]` included.  `exec2` is what the correspondence harness runs against the real scheduler (dict and
+heap compared after every block).  `Sched2.exec2_refines` shows that forgetting identities and the dict (`Sched2.abs`) turns every
+history of `exec2` into the same history of `exec` with the same sends — so every theorem above holds of the two-container
+model; the main ones are restated below. -/
+
+open Zc.Sched2 in
+/-- **Dict/heap invariant, over every block history** (pointer updates, withdrawals, rescue scheduling, the pop loop of the pass,
+stop): (a) every dict value is a heap member that is not cancelled and carries the key as its alias; (b) every non-cancelled heap
+member is the dict value of its alias; (c) at most one live entry per alias. -/
+theorem C10_dict_heap_invariant (c : Cfg) (clk : Int) (evs : List (Int × Op)) (s' : S2) (outs : List Send)
+    (hex : exec2 c {} clk evs = .ok (s', outs)) :
+    (∀ al i, dget al s'.dict = some i → ∃ o ∈ s'.heap, o.id = i ∧ o.q.cancelled = false ∧ o.q.alias = al) ∧
+    (∀ o ∈ s'.heap, o.q.cancelled = false → dget o.q.alias s'.dict = some o.id) ∧
+    (∀ x ∈ s'.heap, ∀ y ∈ s'.heap, x.q.cancelled = false → y.q.cancelled = false → x.q.alias = y.q.alias → x = y) := by
+  have h := (exec2_sound c inv2_init hex).2
+  exact ⟨h.a, h.b, fun x hx y hy lx ly ha => HD.one_per_alias h hx hy lx ly ha⟩
+
+open Zc.Sched2 in
+/-- the `KeyError` at `del self._next_scheduled_for_alias[query.alias]` (which would kill the scheduler: the pass would not
+re-arm) cannot happen, and a dict value is never missing from the heap -/
+theorem C10_no_keyerror (c : Cfg) (clk : Int) (evs : List (Int × Op)) :
+    exec2 c {} clk evs ≠ .error .keyError ∧ exec2 c {} clk evs ≠ .error .dangling :=
+  exec2_no_keyError c inv2_init clk evs
+
+open Zc.Sched2 in
+/-- **Refinement.**  Every history of the two-container model is the same history of the one-list model (same sends, the final
+state is the abstraction), and conversely a history the one-list model accepts is accepted by the two-container model. -/
+theorem C10_refinement (c : Cfg) (clk : Int) (evs : List (Int × Op)) :
+    (∀ s' outs, exec2 c {} clk evs = .ok (s', outs) → exec c {} clk evs = some (Sched2.abs s', outs)) ∧
+    (∀ s outs, exec c {} clk evs = some (s, outs) → ∃ s', exec2 c {} clk evs = .ok (s', outs) ∧ Sched2.abs s' = s) := by
+  refine ⟨fun s' outs hex => (exec2_sound c inv2_init hex).1, ?_⟩
+  intro s outs hex
+  obtain ⟨s2', h1, h2, _⟩ := (exec2_refines c evs {} clk inv2_init).2 s outs hex
+  exact ⟨s2', h1, h2⟩
+
+open Zc.Sched2 in
+/-- `C10_startup` on the two-container model -/
+theorem C10_startup2 (types : List String) (minDelay : Nat) (qtype : Option Bool) (t0 : Int) (d : Nat)
+    (evs : List (Int × Op)) (s' : S2) (outs : List Send) (hact : Active evs)
+    (hex : exec2 (browserCfg types minDelay qtype) {} t0 ((t0, .start d) :: evs) = .ok (s', outs)) :
+    20 ≤ d ∧ d ≤ 120 ∧
+    ( (s'.startupSent < 4 ∧ outs = startupSends (browserCfg types minDelay qtype) (t0 + d) 0 s'.startupSent
+        ∧ ∀ e ∈ evs, e.1 ≤ t0 + d + startupOffset s'.startupSent)
+    ∨ (Post (Sched2.abs s') ∧ ∃ post, outs = startupSends (browserCfg types minDelay qtype) (t0 + d) 0 4 ++ post
+        ∧ (∀ o ∈ post, t0 + d + 14000 + minDelay ≤ o.t) ∧ Spaced minDelay (post.map (·.t))) ) :=
+  C10_startup types minDelay qtype t0 d evs (Sched2.abs s') outs hact (exec2_sound _ inv2_init hex).1
+
+open Zc.Sched2 in
+/-- `C10_rate` on the two-container model -/
+theorem C10_rate2 (types : List String) (minDelay : Nat) (qtype : Option Bool) (t0 : Int) (d : Nat)
+    (evs : List (Int × Op)) (s' : S2) (outs : List Send) (hact : Active evs)
+    (hex : exec2 (browserCfg types minDelay qtype) {} t0 ((t0, .start d) :: evs) = .ok (s', outs)) :
+    Spaced minDelay ((outs.drop 3).map (·.t)) :=
+  C10_rate types minDelay qtype t0 d evs (Sched2.abs s') outs hact (exec2_sound _ inv2_init hex).1
+
+open Zc.Sched2 in
+/-- `C10_alive` on the two-container model: a wake-up is armed after every history of an active browser — in particular no pass
+died on a `KeyError` -/
+theorem C10_alive2 (types : List String) (minDelay : Nat) (qtype : Option Bool) (t0 : Int) (d : Nat)
+    (evs : List (Int × Op)) (s' : S2) (outs : List Send) (hact : Active evs)
+    (hex : exec2 (browserCfg types minDelay qtype) {} t0 ((t0, .start d) :: evs) = .ok (s', outs)) :
+    s'.armed.isSome = true :=
+  C10_alive types minDelay qtype t0 d evs (Sched2.abs s') outs hact (exec2_sound _ inv2_init hex).1
+
+open Zc.Sched2 in
+/-- `C10_refresh_chain` on the two-container model: the whole 75 % / +10 % chain of an untouched record, from the start of the
+browser -/
+theorem C10_refresh_chain2 (types : List String) (minDelay : Nat) (qtype : Option Bool) (t0 : Int) (d : Nat)
+    (pre : List (Int × Op)) (t : Int) (a n : String) (ttl : Nat) (cr : Int) (evs : List (Int × Op)) (s' : S2) (outs : List Send)
+    (links : Nat)
+    (hpre : Active pre) (hfresh : Untouched a pre) (hact : Active evs) (hun : Untouched a evs)
+    (hstarted : t0 + d + 14000 < t) (hbefore : t ≤ cr + 750 * ttl)
+    (hex : exec2 (browserCfg types minDelay qtype) {} t0 ((t0, .start d) :: (pre ++ (t, .ptr a n ttl cr) :: evs)) = .ok (s', outs)) :
+    Chain (browserCfg types minDelay qtype) n ttl (cr + 1000 * ttl) (lastTime t evs) outs links (cr + 750 * ttl) :=
+  C10_refresh_chain types minDelay qtype t0 d pre t a n ttl cr evs (Sched2.abs s') outs links hpre hfresh hact hun hstarted hbefore
+    (exec2_sound _ inv2_init hex).1
+
+open Zc.Sched2 in
+/-- the D7 history runs on the two-container model with the same sends; afterwards the dict holds exactly the two live objects -/
+example : (match exec2 (browserCfg ["_x._tcp.local."] 10000 none) {} 0
+    [(0, .start 50), (50, .fire false), (1050, .fire false), (5050, .fire false), (14050, .fire false),
+     (20000, .ptr "a" "_x._tcp.local." 4500 20000), (24050, .fire false),
+     (60000, .ptr "b" "_x._tcp.local." 1200 60000), (960000, .fire false)] with
+    | .ok r => (r.2.map (·.t), r.1.dict.length, r.1.heap.length)
+    | .error _ => ([], 0, 0)) = ([50, 1050, 5050, 14050, 960000], 2, 2) := by decide
+
 
 end Zc
